@@ -285,9 +285,19 @@ def main(tier: str, seed: int) -> int:
         ],
         require=["mid_edges_below_limit", "last_exactly_at_limit_no_other_reason", "early_last_with_reason",
                  "horizon_edges", "horizon_last_edges"],
-        extra_tasks=horizon.tasks(PID, tier, seed),
+        extra_tasks=horizon.tasks(PID, tier, seed) + _modeb_tasks(tier, seed),
     )
     return rep.finish()
+
+
+def _modeb_tasks(tier: str, seed: int) -> List[Any]:
+    """Whole episodes of the default-size horizon-only configurations (mode B: base schedules + every single-step
+    deviation) and MultiCVRP's idle-prefix schedules: the structural horizon is checked where the closed tiny graphs
+    cannot reach it (2 x customers steps of MultiCVRP, 20 items of BinPack, 40 nodes of CVRP ...)."""
+    from mc.checks import modeb
+
+    fams = sorted({c.family for c in catalog.CATALOG if c.horizon is not None})
+    return modeb.tasks(PID, tier, seed, families=fams)
 
 
 def replay(doc: Dict[str, Any]) -> int:
